@@ -336,7 +336,7 @@ func cmdCheck(args []string) int {
 			if it.Kind != ItemOblig {
 				continue
 			}
-			if vc.lockOnly && !(strings.HasPrefix(it.Name, "lock:") || strings.HasPrefix(it.Name, "pre:") && strings.Contains(it.Info, "held(") || strings.HasPrefix(it.Name, "callsite:")) {
+			if vc.lockOnly && !(strings.HasPrefix(it.Name, "lock:") || strings.HasPrefix(it.Name, "pre:") && strings.Contains(it.Info, "held(") || strings.HasPrefix(it.Name, "callsite:") && (strings.Contains(it.Info, "held(") || strings.Contains(it.Info, "nolocks("))) {
 				continue
 			}
 			r := &OblResult{Func: vc.contract.Pkg + "::" + vc.contract.Key + vc.instSuffix(), Name: it.Name, Info: it.Info, vc: vc, idx: i, Cover: strings.HasPrefix(it.Name, "cover:") || strings.HasPrefix(it.Name, "reach:"), Info2: strings.HasPrefix(it.Name, "reach:")}
